@@ -41,6 +41,24 @@ Print Assumptions C02_no_deliver_before_check.
 (* the honest stream is accepted: every message of a session is delivered with a non-trivial
    authenticated event (C01_roundtrip_message gives ev <> EvNone in protected modes) *)
 
+(* the sender's MAC input is seq || the whole packet (classic: the complete plaintext packet;
+   encrypt-then-MAC: every wire byte before the tag); with C02_no_deliver_before_check (the receiver
+   recomputes the tag over seq || size || exactly the bytes `finish` consumes) no packet byte is
+   outside the MAC *)
+Theorem C02_mac_covers_packet :
+  forall P s packet out m',
+    encrypt_packet P s packet = Ok (out, m') ->
+    match p_mode s with
+    | Classic c k =>
+        out = fst (c_enc P c packet) ++ mac_tag P k (p_msz s) (be_encode 4 (p_seq s) ++ packet)
+    | Etm c k =>
+        out = (firstn 4 packet ++ fst (c_enc P c (skipn 4 packet))) ++
+              mac_tag P k (p_msz s) (be_encode 4 (p_seq s) ++ (firstn 4 packet ++ fst (c_enc P c (skipn 4 packet))))
+    | _ => True
+    end.
+Proof. exact mac_covers_packet. Qed.
+Print Assumptions C02_mac_covers_packet.
+
 (* C02_prefix (encrypt-then-MAC and AEAD, one key epoch): for EVERY byte string T presented to a
    receiver keyed like the sender, under the symbolic premise that every tag / AEAD ciphertext it
    accepted is in the sender's log ("verifies only if the key owner produced it for exactly these
